@@ -10,10 +10,10 @@ from ._meta import M, COMMON_NOTE
 META = dict(M["C18"])
 META.update(
     level="other",
-    technique="contracts on the real JSONEncoder.default (scalar cases), depth_m and depth_ft discharged by z3; branch-consistency lemma over the two depth contracts with real arithmetic treated as mathematical; "
+    technique="contracts on the real JSONEncoder.default (scalar cases), depth_m and depth_ft discharged by z3; branch-consistency lemma over the two depth contracts with real arithmetic treated as mathematical; unit-table lemma (the real unit test of LASFile.read on the real DEPTH_UNITS table with a symbolic unit string); per-curve JSON list lemma (the real comprehension of JSONEncoder.default on an opaque array); "
               "strict JSON / csv / openpyxl / pandas round trips as bounded stand-in",
     level_text="Proved: JSONEncoder.default returns int(obj) for numpy integers, float(obj) for numpy floats and None otherwise (non-LASFile arguments); depth_m and depth_ft select the same unit branch (M, then F, then .1IN, else LASUnknownUnitError) "
-               "and in each branch depth_m = depth_ft x 0.3048 (lemma, with (x / c) x c = x as the only arithmetic fact). The LASFile branch of the encoder (section dict views, NaN -> null), to_csv, to_excel, df and unit recognition are bounded.",
+               "and in each branch depth_m = depth_ft x 0.3048 (lemma, with (x / c) x c = x as the only arithmetic fact); a unit text is recognised as FT, M or .1IN exactly when it equals one of that unit's spellings in defaults.DEPTH_UNITS up to letter case (every string, incl. non-ASCII); the JSON list of a curve has one entry per sample, null exactly for a float NaN and the sample itself otherwise (T-enc: iterating an array yields its len() elements). The rest of the LASFile branch of the encoder (section dict views, NaN -> null), to_csv, to_excel, df and unit recognition are bounded.",
     level_note=COMMON_NOTE + "Machine arithmetic treated as mathematical: (x / c) * c = x for the metre branch. _index_unit_contains is an assumed one-line contract.",
     assumptions=["(x / 0.3048) * 0.3048 = x (real arithmetic; floating-point rounding ignored)"])
 
@@ -31,7 +31,56 @@ def lemmas(E, REG):
     # both raise on exactly the same units
     goals.append(L.goal(E, "C18", "depth_m-and-depth_ft-are-undefined-for-the-same-units", [], J.no_unit(c) == J.no_unit(c)))
     goals += unit_table_lemma(E)
+    goals += json_samples_lemma(E)
     return goals
+
+
+def json_samples_lemma(E):
+    """The list JSONEncoder.default builds for one curve, taken from the real source (the value stored under
+    d["data"][curve.mnemonic]) and evaluated on an opaque data array: one entry per sample, null for a float NaN,
+    the sample itself otherwise."""
+    import ast
+    from pyvc.state import State, OutOfSubset, Goal
+    import specs.writer_data as WD
+    fn = E.funcs["las.JSONEncoder.default"]
+    cands = [n for n in ast.walk(fn) if isinstance(n, ast.Assign) and len(n.targets) == 1
+             and (ast.get_source_segment(E.src["las"], n.targets[0]) or "").replace(" ", "") == 'd["data"][curve.mnemonic]']
+    if len(cands) != 1:
+        raise OutOfSubset("C18 json lemma: expected exactly one assignment to d[\"data\"][curve.mnemonic], found %d" % len(cands))
+    expr = cands[0].value
+    free = {x.id for x in ast.walk(expr) if isinstance(x, ast.Name) and isinstance(x.ctx, ast.Load)} \
+        - {x.id for x in ast.walk(expr) if isinstance(x, ast.Name) and isinstance(x.ctx, ast.Store)}
+    if not free <= {"curve", "np", "isinstance", "float"}:
+        raise OutOfSubset("C18 json lemma: the per-curve list reads other variables: %s" % sorted(free - {"curve", "np", "isinstance", "float"}))
+
+    class _Cur:
+        key = "lemma:C18"; hooks = {}; local_types = {}; loops = {}; loop_anchor = {}; modifies = {}
+        abstract_exprs = False; anyraise = False; reveal = ("np",); merge = False; opaque_iterables = True
+    E.cur = _Cur(); E.cur_loops = []; E.cur_module = "las"
+    st = State()
+    arr = z3.Const("curve_data", PyObj)
+    item = VPy("CurveItem"); item.attrs = {"data": VObj(arr)}
+    st.env["curve"] = item
+    is_float = z3.Function("py_isinstance_float", PyObj, B)
+    o = z3.Const("ax_fo", PyObj)
+    # T-np/T-enc: a float instance is numeric (np.isnan accepts it)
+    st.assume(z3.ForAll([o], z3.Implies(is_float(o), WD.is_number(o)), patterns=[is_float(o)]))
+    out = []
+    res = E.ev(expr, st, out)
+    if out or len(res) != 1 or not isinstance(res[0][1], VList):
+        raise OutOfSubset("C18 json lemma: the per-curve list is not a single symbolic list (%d results, %d exceptional)" % (len(res), len(out)))
+    s1, L_ = res[0]
+    items = z3.Function("py_items_of", PyObj, z3.ArraySort(I, PyObj))(arr)
+    k = z3.Int("sample")
+    x = z3.Select(items, k)
+    want = z3.If(z3.And(is_float(x), WD.isnan(x)), none_obj, x)
+    got = z3.Select(L_.cols[0], k) if L_.ety == OBJ else None
+    if got is None:
+        raise OutOfSubset("C18 json lemma: element type %r" % (L_.ety,))
+    ax = E.axioms_for(_Cur())
+    return [Goal("lemma:C18:json-data-has-one-entry-per-sample", ax + list(s1.pc), L_.n == len_of(arr), "lemma", "lemma:C18"),
+            Goal("lemma:C18:json-sample-is-null-iff-float-NaN-else-the-sample-itself", ax + list(s1.pc),
+                 z3.ForAll([k], z3.Implies(z3.And(0 <= k, k < L_.n), got == want)), "lemma", "lemma:C18")]
 
 
 def unit_table_lemma(E):
